@@ -566,6 +566,12 @@ class SimLock:
             nxt = self.waiters.pop(0)
             self.owner = nxt
             sim._wake(nxt, "lock")
+            # releasing a contended lock is where real schedulers like to switch to the waiter: under the
+            # pre-emptive policies that is a (recorded) choice, so "the waiter runs before the releaser's
+            # next statement" does not depend on a line-level pre-emption landing exactly there
+            if sim.tracing and sim.current is not None and not sim.current.is_driver and sim.choose("lock_handoff", 2):
+                sim.count("lock_handoff_switches")
+                sim.yield_point()
         else:
             self.owner = None
 
